@@ -107,10 +107,10 @@ class Clock:
         return t
 
 
-async def scenario(names, prefix, tokens, payload, chunk_size):
+async def scenario(names, prefix, tokens, payload, chunk_size, host='objects.example.test', scheme='https'):
     problems, seen = [], []
     s3c.datetime = Clock().cls
-    secret, region, host = 'sEcr/et+key', 'eu-test-1', 'objects.example.test'
+    secret, region = 'sEcr/et+key', 'eu-test-1'
     pages = list(tokens)
 
     async def handler(request):
@@ -128,7 +128,7 @@ async def scenario(names, prefix, tokens, payload, chunk_size):
             return httpx.Response(200, content=payload)
         return httpx.Response(200)
 
-    c = s3c.S3Compatible('bkt', key_id='AKID', access_key=secret, region=region, host=host)
+    c = s3c.S3Compatible('bkt', key_id='AKID', access_key=secret, region=region, host=host, scheme=scheme)
     await c._client.aclose()
     c._client = httpx.AsyncClient(transport=httpx.MockTransport(handler), timeout=None,
                                   event_hooks={'response': [s3c._raise_for_status_hook]})
@@ -179,11 +179,12 @@ def main():
         tokens = rnd.sample(['tok en', 'a+b/c=', 'ü', '1%2F2', 'x&y'], rnd.randint(0, 3))
         scen += 1
         try:
-            problems, n = lib.run(scenario(names, prefix, tokens, lib.content(seed + size, size), 1000 if size < 5000 else 128_000))
+            host, scheme = [('objects.example.test', 'https'), ('minio.local:9000', 'http'), ('s3.eu-test-1.amazonaws.com', 'https'), ('[::1]:9000', 'http')][scen % 4]
+            problems, n = lib.run(scenario(names, prefix, tokens, lib.content(seed + size, size), 1000 if size < 5000 else 128_000, host, scheme))
         except Exception as e:
             problems, n = [{'problem': 'exception', 'type': type(e).__name__, 'text': str(e)[:300]}], 0
         n_req += n
-        case = {'names': names, 'prefix': prefix, 'tokens': tokens, 'payload': size}
+        case = {'names': names, 'prefix': prefix, 'tokens': tokens, 'payload': size, 'host': host, 'scheme': scheme}
         if len(samples) < 3:
             samples.append(case)
         if problems:
